@@ -1,12 +1,21 @@
 /-
 C01 - multicast packets reach exactly the cores of their net's sinks.
 Property theorems; helper lemmas are in RigModel/Lemmas/C01*.lean.
+
+`deliver m dev T k src` (Model/C01.lean) is what the machine `m` with tables `T` and device links
+`dev` does with a packet with key `k` injected at chip `src`: the list of events (core deliveries,
+exits over device links, and the flags dropped / deadHop / loop / fuelOut).
+`Delivered evs cores exits` is the statement of C01 for one packet: `evs` is duplicate free and
+consists of exactly one delivery per expected core and one exit per expected device link - hence no
+flag, nothing missing, nothing extra, nothing twice.
 -/
 import RigModel.Model.C01
+import RigModel.Lemmas.C01
 set_option linter.unusedSimpArgs false
 set_option linter.unusedVariables false
 
 namespace Rig.C01
+open Rig.C03 (Chip Machine chipOk linkOk step opp Tree)
 
 /-- smoke test of the semantics: chip (0,0) sends key 5 east, chip (1,0) delivers to cores 0 and 1 -/
 theorem deliver_example :
@@ -14,5 +23,98 @@ theorem deliver_example :
       (tableAt [((0, 0), [{ route := 1, key := 5#32, mask := 7#32, sources := 2 ^ 24 }]),
                 ((1, 0), [{ route := 192, key := 5#32, mask := 7#32, sources := 8 }])]) 5#32 (0, 0)
       = [.core (1, 0) 0, .core (1, 0) 1] := by decide +kernel
+
+theorem nodupEv_iff (l : List Ev) : nodupEv l = true ↔ l.Nodup := by
+  induction l with
+  | nil => simp [nodupEv]
+  | cons e r ih => simp [nodupEv, ih, List.nodup_cons]
+
+/-- **The oracle is the specification.**  The executable check the harness applies to the events
+computed from the implementation's tables decides `Delivered`. -/
+theorem deliveredB_iff (evs : List Ev) (ec ex : List (Chip × Nat)) :
+    deliveredB evs ec ex = true ↔ Delivered evs ec ex := by
+  simp only [deliveredB, Delivered, Bool.and_eq_true, nodupEv_iff, List.all_eq_true]
+  constructor
+  · rintro ⟨⟨⟨hn, hall⟩, hc⟩, hx⟩
+    refine ⟨hn, fun ev => ⟨fun h => ?_, ?_⟩⟩
+    · have := hall ev h
+      cases ev with
+      | core c p => exact Or.inl ⟨(c, p), by simpa [evAllowed] using this, rfl⟩
+      | exit c l => exact Or.inr ⟨(c, l), by simpa [evAllowed] using this, rfl⟩
+      | _ => simp [evAllowed] at this
+    · rintro (⟨x, hx', rfl⟩ | ⟨x, hx', rfl⟩)
+      · simpa using hc x hx'
+      · simpa using hx x hx'
+  · rintro ⟨hn, h⟩
+    refine ⟨⟨⟨hn, ?_⟩, ?_⟩, ?_⟩
+    · intro ev hev
+      rcases (h ev).1 hev with ⟨x, hx, rfl⟩ | ⟨x, hx, rfl⟩ <;> simpa [evAllowed] using hx
+    · intro x hx; simpa using (h _).2 (Or.inl ⟨x, hx, rfl⟩)
+    · intro x hx; simpa using (h _).2 (Or.inr ⟨x, hx, rfl⟩)
+
+/-- a delivered packet raises no flag -/
+theorem delivered_no_flag {evs : List Ev} {ec ex : List (Chip × Nat)} (h : Delivered evs ec ex) :
+    flags evs = [] := by
+  simp only [flags, List.filter_eq_nil_iff]
+  intro ev hev
+  rcases (h.2 ev).1 hev with ⟨x, _, rfl⟩ | ⟨x, _, rfl⟩ <;> simp [Ev.isFlag]
+
+/-! ## delivery along a routing tree -/
+
+/-- **deliver_of_tree.**  If the tables agree with a routing tree for key `k` (`Agrees`: every node's
+chip looks `k` up to exactly the node's out-set, hops are working links between working adjacent
+chips, leaf links are device links, chips differ from the path so far), the chips of the tree are
+distinct and the fuel covers the tree, then a packet arriving at the root produces exactly the
+events the tree stands for (`treeEvs`: one delivery per leaf core route, one exit per leaf link
+route), each exactly once, and no flag: nothing dropped, no dead hop, no circulation.
+By induction on the tree (through the fuel). -/
+theorem deliver_of_tree (m : Machine) (dev : List (Chip × Nat)) (T : Chip → List Entry) (k : W)
+    (t : Tree) (fuel : Nat) (path : List Chip) (arr : Option Nat)
+    (ha : Agrees m dev T k path t) (hn : t.chips.Nodup) (hf : t.chips.length ≤ fuel) :
+    (visit m dev T k fuel path t.chip arr).Nodup ∧
+    (∀ ev, ev ∈ visit m dev T k fuel path t.chip arr ↔ ev ∈ treeEvs t) ∧
+    flags (visit m dev T k fuel path t.chip arr) = [] :=
+  ⟨L.visit_nodup fuel t path arr ha hn hf, L.visit_mem fuel t path arr ha hf, L.visit_no_flag fuel t path arr ha hf⟩
+
+/-- `deliver_of_tree` for a packet injected at the root chip of the tree -/
+theorem deliver_of_tree_root (m : Machine) (dev : List (Chip × Nat)) (T : Chip → List Entry) (k : W) (t : Tree)
+    (ha : Agrees m dev T k [] t) (hn : t.chips.Nodup) (hf : t.chips.length ≤ m.w * m.h + 1) :
+    (deliver m dev T k t.chip).Nodup ∧ (∀ ev, ev ∈ deliver m dev T k t.chip ↔ ev ∈ treeEvs t) ∧
+    flags (deliver m dev T k t.chip) = [] :=
+  deliver_of_tree m dev T k t _ [] none ha hn hf
+
+/-! ## invariance under table minimisation -/
+
+/-- **deliver_congr.**  If at every chip the two tables are `RouteEquiv` in C04's sense (every key
+matched by `T c` is matched in `T' c` by an entry with the same route and at least its sources, or
+is matched by nothing in `T' c` and the old entry was single-source, single-route, link to opposite
+link) and on `T` every state the packet reaches is matched by an entry that lists the way it
+arrived (`Covered`), then the packet does exactly the same on `T'`: the same events in the same
+order.  The induction carries the arrival direction, which is what makes the default route of a
+chip whose entry was removed reproduce that entry. -/
+theorem deliver_congr (m : Machine) (dev : List (Chip × Nat)) (T T' : Chip → List Entry) (k : W) (src : Chip)
+    (heq : ∀ c, Rig.C04.RouteEquiv (T c) (T' c))
+    (hcov : Covered m dev T k (m.w * m.h + 1) [] src none) :
+    deliver m dev T' k src = deliver m dev T k src :=
+  L.visit_congr heq _ _ _ _ hcov
+
+/-- tables built from a tree (`Agrees`, and the sources list the arrival links: `SrcListed`) cover
+every state the packet reaches: the hypothesis of `deliver_congr` holds for them -/
+theorem covered_of_tree (m : Machine) (dev : List (Chip × Nat)) (T : Chip → List Entry) (k : W) (t : Tree)
+    (fuel : Nat) (path : List Chip) (arr : Option Nat)
+    (ha : Agrees m dev T k path t) (hs : SrcListed T k arr t) : Covered m dev T k fuel path t.chip arr :=
+  L.covered_of_agrees fuel t path arr ha hs
+
+/-- **Delivery survives minimisation.**  Tables `T` agree with the tree and list the arrival links;
+`T'` is per-chip RouteEquiv to `T` (what C04 proves of `minimise_tables`): the packet injected at the
+root is delivered on `T'` exactly to the leaves of the tree, each once, no flag. -/
+theorem deliver_minimised (m : Machine) (dev : List (Chip × Nat)) (T T' : Chip → List Entry) (k : W) (t : Tree)
+    (ha : Agrees m dev T k [] t) (hs : SrcListed T k none t)
+    (hn : t.chips.Nodup) (hf : t.chips.length ≤ m.w * m.h + 1)
+    (heq : ∀ c, Rig.C04.RouteEquiv (T c) (T' c)) :
+    (deliver m dev T' k t.chip).Nodup ∧ (∀ ev, ev ∈ deliver m dev T' k t.chip ↔ ev ∈ treeEvs t) ∧
+    flags (deliver m dev T' k t.chip) = [] := by
+  rw [deliver_congr m dev T T' k t.chip heq (covered_of_tree m dev T k t _ [] none ha hs)]
+  exact deliver_of_tree_root m dev T k t ha hn hf
 
 end Rig.C01
